@@ -17,10 +17,11 @@ if part:
 claimed=[c['property_id'] for c in json.load(open(VERIF+'/MANIFEST.json'))['checks']]
 res_path=VERIF+'/seeded/RESULTS%s.json' % (('.' + part.replace('/', 'of')) if part else '')
 results=json.load(open(res_path)) if os.path.exists(res_path) else {}
-env=dict(os.environ, VERIF_REPO=SCR, VERIF_GEN_TAG='_seed%d' % os.getpid())
+env=dict(os.environ, VERIF_REPO=SCR, VERIF_GEN_TAG='_seed%d' % os.getpid(), VERIF_NO_EVIDENCE='1')
 for i in ids:
     shutil.rmtree(SCR, ignore_errors=True)
-    sh('rsync -a --exclude target --exclude .git /repo/ %s/' % SCR)
+    os.makedirs(SCR, exist_ok=True)
+    sh('git -C /repo archive HEAD | tar -x -C %s' % SCR)   # the committed tree, immune to concurrent edits of the working tree
     r=sh('cd %s && patch -p1 -s < %s/seeded/%s/patch.diff' % (SCR, VERIF, i))
     if r.returncode: print(i,'PATCH FAILED',r.stderr); continue
     prop=i.split('-')[0]
